@@ -268,6 +268,9 @@ func nearClassRuns(class string, f func([]byte)) {
 	case "digits":
 		base = []byte("123456789012345678901234")
 		near = []byte{0x2f, 0x3a, 0x3b, 0x3c, 0x3d, 0x3e, 0x3f, 0x20, 0x10, 0x19, 0x40, 0x70, 0x79, 0xb0, 0xb9, 0x00, 0xff}
+	case "strchars":
+		base = []byte("abcdefghijklmnopqrstuvwx")
+		near = []byte{0x22, 0x5c, 0x00, 0x01, 0x1f, 0x20, 0x7f, 0x80, 0xa2, 0xdc, 0xff, 0x21, 0x23, 0x5b, 0x5d, 0x1e, 0x9f}
 	case "spaces":
 		base = []byte("                        ")
 		near = []byte{0x00, 0x08, 0x0b, 0x0c, 0x0e, 0x1f, 0x21, 0x28, 0x29, 0x2a, 0x2d, 0xa0, 0x89, 0x8a, 0x8d, 0x60}
